@@ -1000,7 +1000,11 @@ class MultiStream(Stream):
     
     def reduce_phases(self):
         """Remove empty phases."""
-        self.phase = self.phase
+        phases = [phase for phase, data in self._imol if data.any()]
+        if len(phases) > 1:
+            self.phases = phases
+        else:
+            self.phase = self.phase
     
     @property
     def phase(self) -> str:
